@@ -66,6 +66,7 @@ theorem applyOpCore_jobsFresh (sh : Shell) (op : Op) (h : JobsFresh sh.env.jobs)
   | fdr n => show JobsFresh (redirOp sh n (.file "oin")).env.jobs; rw [redirOp_env]; exact h
   | fdd n m => show JobsFresh (redirOp sh n (.copy m)).env.jobs; rw [redirOp_env]; exact h
   | fdc n => show JobsFresh (redirOp sh n .close).env.jobs; rw [redirOp_env]; exact h
+  | shift => unfold applyOpCore; simp only []; split <;> exact h
   | pl => unfold applyOpCore; simp only []; split <;> exact h
   | cs => unfold applyOpCore; simp only []; split <;> exact h
   | hd => unfold applyOpCore; simp only []; split <;> exact h
